@@ -93,14 +93,17 @@ Init == smp \in Samples /\ h = Null /\ bnd = Null /\ done = FALSE
 ChooseH == h = Null /\ \E hh \in Hs : h' = hh /\ UNCHANGED <<smp, bnd, done>>
 ChooseB == /\ h # Null /\ bnd = Null /\ UNCHANGED <<smp, h, done>>
            /\ \E b \in Bounds : LET r == Resolve(smp, b) IN
-                /\ (b.kind = "both" => (NImg(smp, r, 40 * EpReach(h)) <= 60 /\ V(h) <= 40))   \* keep the image list and the integers small
+                /\ (b.kind = "both" => NImg(smp, r, 40 * EpReach(h)) <= 1500)      \* keep the image list finite
                 /\ bnd' = r
 Finish == bnd # Null /\ ~done /\ done' = TRUE /\ UNCHANGED <<smp, h, bnd>>
 Next == ChooseH \/ ChooseB \/ Finish
 Spec == Init /\ [][Next]_vars
 
 \* ---- laws of the structure, checked exactly for the Epanechnikov kernel ----
-Laws == done =>
+\* exact Epanechnikov sums stay within TLC's 32-bit integers only for moderate bandwidths when both boundaries are set;
+\* beyond that the case carries the image structure only (Gaussian kernel and the general laws are still checked)
+EpExact == bnd.kind # "both" \/ V(h) <= 40
+Laws == (done /\ EpExact) =>
   LET Q == Queries(smp, bnd)  cd == EpCdfDen(smp, h) IN
   /\ \A x \in Q : EpPdfNum(smp, h, bnd, x) >= 0
   /\ \A x \in Q : EpCdfNum(smp, h, bnd, x) >= 0 /\ EpCdfNum(smp, h, bnd, x) <= cd
@@ -127,11 +130,11 @@ VarLat(q) == LET n == Len(q) IN <<n * SumSq(q) - SumSeq(q) * SumSeq(q), n * (n -
 \* Scott = 1.06 min(s, IQR/1.349) n^(-1/5), Silverman = 1.06 s n^(-1/5): Sqrt and Pow are left to the harness
 
 PointRec(x) == [x |-> x, inside |-> Inside(bnd, x), below |-> Below(bnd, x),
-                pn |-> EpPdfNum(smp, h, bnd, x), cn |-> EpCdfNum(smp, h, bnd, x),
+                pn |-> IF EpExact THEN EpPdfNum(smp, h, bnd, x) ELSE 0, cn |-> IF EpExact THEN EpCdfNum(smp, h, bnd, x) ELSE 0,
                 en |-> SE(smp, x, 1)]
 Emit == done =>
   PrintT(ToJson([xs |-> smp.xs, ws |-> smp.ws, hn |-> h[1], hd |-> h[2], kind |-> bnd.kind, lo |-> bnd.lo, hi |-> bnd.hi,
-                 pden |-> EpPdfDen(smp, h), cden |-> EpCdfDen(smp, h), wsum |-> W(smp),
+                 epexact |-> EpExact, pden |-> IF EpExact THEN EpPdfDen(smp, h) ELSE 1, cden |-> IF EpExact THEN EpCdfDen(smp, h) ELSE 1, wsum |-> W(smp),
                  shifts |-> IF bnd.kind = "both" THEN LET N == NImg(smp, bnd, 40 * EpReach(h)) IN [k \in 1..(2 * N + 1) |-> (k - N - 1) * 2 * (bnd.hi - bnd.lo)] ELSE <<0>>,
                  mirror |-> IF bnd.kind \in {"lo", "both"} THEN 2 * bnd.lo ELSE IF bnd.kind = "hi" THEN 2 * bnd.hi ELSE 0,
                  cdfc |-> CdfConst(bnd),
